@@ -152,6 +152,22 @@ func c19Synthetic() []c19Fn {
 		{"z_iface_str", func() interface{} { c19rec(); return "a" }, "k:s:61"},
 		{"z_f32_tiny", func() float32 { c19rec(); return math.SmallestNonzeroFloat32 }, "k:g:36a0000000000000"},
 		{"z_f64_negzero", func() float64 { c19rec(); return math.Copysign(0, -1) }, "k:n:8000000000000000"},
+		// numbers nested in returned slices / arrays / maps of Go values
+		{"z_ints", func() []int { c19rec(); return []int{1, 2, 3} }, "k:" + c19Canon([]int{1, 2, 3}, 0)},
+		{"z_f32s", func() []float32 { c19rec(); return []float32{1.5, 0.1} }, "k:" + c19Canon([]float32{1.5, 0.1}, 0)},
+		{"z_arr", func() [2]uint8 { c19rec(); return [2]uint8{200, 7} }, "k:" + c19Canon([2]uint8{200, 7}, 0)},
+		{"z_nested", func() [][]int { c19rec(); return [][]int{{1}, {2, 3}, {}} }, "k:" + c19Canon([][]int{{1}, {2, 3}, {}}, 0)},
+		{"z_strs", func() []string { c19rec(); return []string{"a", ""} }, "k:" + c19Canon([]string{"a", ""}, 0)},
+		{"z_durs", func() []time.Duration { c19rec(); return []time.Duration{5} }, "k:" + c19Canon([]time.Duration{5}, 0)},
+		{"z_big", func() []uint64 { c19rec(); return []uint64{1 << 53, math.MaxUint64} }, "k:" + c19Canon([]uint64{1 << 53, math.MaxUint64}, 0)},
+		{"z_map", func() map[string]int { c19rec(); return map[string]int{"a": 1, "b": 2} }, "k:" + c19Canon(map[string]int{"a": 1, "b": 2}, 0)},
+		{"z_mapkeys", func() map[int8]float32 { c19rec(); return map[int8]float32{1: 1.5, -2: 0.5} }, "k:" + c19Canon(map[int8]float32{1: 1.5, -2: 0.5}, 0)},
+		{"z_maplist", func() map[string][]int { c19rec(); return map[string][]int{"a": {1, 2}} }, "k:" + c19Canon(map[string][]int{"a": {1, 2}}, 0)},
+		{"z_iface_ints", func() interface{} { c19rec(); return []int{1, 2} }, "k:" + c19Canon([]int{1, 2}, 0)},
+		{"z_ints_int", func() ([]int, int, error) { c19rec(); return []int{4}, 5, nil }, "k:" + c19Canon([]int{4}, 0) + "|i:int:5|z"},
+		{"z_nilints", func() []int { c19rec(); return nil }, "k:" + c19Canon([]int(nil), 0)},
+		// a list of ECAL values is passed on as it is — Go numbers inside it are not looked for
+		{"z_mixedlist", func() []interface{} { c19rec(); return []interface{}{1, int8(2), 3.5} }, "k:l[i:int:1,i:int8:2,n:400c000000000000]"},
 		// trailing error
 		{"r_err_nil", func() error { c19rec(); return nil }, "k:z"},
 		{"r_err", func() error { c19rec(); return c19Err }, "k:e"},
@@ -246,6 +262,7 @@ func c19Plugins() []*c19PluginFn {
 		{"valerr", "k:s:61|e", func(a []interface{}) (interface{}, error) { c19rec(a...); return "a", c19Err }},
 		{"int", "k:i:int:7|z", func(a []interface{}) (interface{}, error) { c19rec(a...); return 7, nil }},
 		{"f32", "k:g:3ff8000000000000|z", func(a []interface{}) (interface{}, error) { c19rec(a...); return float32(1.5), nil }},
+		{"ints", "k:" + c19Canon([]int{1, 2}, 0) + "|z", func(a []interface{}) (interface{}, error) { c19rec(a...); return []int{1, 2}, nil }},
 		{"lenint", "plenint", func(a []interface{}) (interface{}, error) { c19rec(a...); return len(a), nil }},
 		{"errtypednil", "k:z|en", func(a []interface{}) (interface{}, error) { c19rec(a...); return nil, c19ErrTypedNil }},
 		{"panicnil", "panic", func(a []interface{}) (interface{}, error) { c19rec(a...); panic(nil) }},
@@ -270,11 +287,27 @@ func c19RegisterPlugins() []*c19Target {
 	c19PluginTestLookup = lk
 	defer func() { c19PluginTestLookup = nil }()
 	var ts []*c19Target
+	// every third function through LoadStdlibPlugins (the list form of the .ecal.json configuration), together
+	// with a definition whose symbol does not exist: exactly that one must be reported as an error
+	var batch []interface{}
+	for i, f := range fns {
+		if i%3 == 2 {
+			batch = append(batch, map[string]interface{}{"package": "c19p", "name": "fn" + f.name, "path": "", "symbol": "Sym" + f.name})
+		}
+	}
+	batch = append(batch, map[string]interface{}{"package": "c19p", "name": "fnmissing", "path": "", "symbol": "SymDoesNotExist"})
+	if errs := stdlib.LoadStdlibPlugins(batch); len(errs) != 1 {
+		panic(fmt.Sprintf("LoadStdlibPlugins: expected exactly one error (the missing symbol), got %v", errs))
+	}
+	if _, ok := stdlib.GetStdlibFunc("c19p.fnmissing"); ok {
+		panic("LoadStdlibPlugins registered a function for a missing symbol")
+	}
 	for i, f := range fns {
 		var err error
-		if i%2 == 0 {
+		switch i % 3 {
+		case 0:
 			err = stdlib.AddStdlibPluginFunc("c19p", "fn"+f.name, "", "Sym"+f.name)
-		} else {
+		case 1:
 			err = stdlib.LoadStdlibPlugin(map[string]interface{}{"package": "c19p", "name": "fn" + f.name, "path": "", "symbol": "Sym" + f.name})
 		}
 		if err != nil {
@@ -411,8 +444,24 @@ func c19Canon(v interface{}, depth int) string {
 			return tok
 		}
 	}
-	// a value of a defined type of primitive kind: N<type id>(<the value as its underlying type>)
 	rv := reflect.ValueOf(v)
+	// a Go slice / array / map that is not an ECAL list / map: q<type>[…], p<ktype>/<vtype>{…}
+	switch rv.Kind() {
+	case reflect.Slice, reflect.Array:
+		parts := make([]string, rv.Len())
+		for i := range parts {
+			parts[i] = c19Canon(rv.Index(i).Interface(), depth+1)
+		}
+		return "q" + c19Ty(rv.Type().Elem()) + "[" + strings.Join(parts, ",") + "]"
+	case reflect.Map:
+		parts := make([]string, 0, rv.Len())
+		for it := rv.MapRange(); it.Next(); {
+			parts = append(parts, c19Canon(it.Key().Interface(), depth+1)+"="+c19Canon(it.Value().Interface(), depth+1))
+		}
+		sort.Strings(parts)
+		return "p" + c19Ty(rv.Type().Key()) + "/" + c19Ty(rv.Type().Elem()) + "{" + strings.Join(parts, ",") + "}"
+	}
+	// a value of a defined type of primitive kind: N<type id>(<the value as its underlying type>)
 	if rv.Type().PkgPath() != "" {
 		var u interface{}
 		switch rv.Kind() {
